@@ -47,7 +47,12 @@ inline bool sf_expected(const sf_obs &ob, int kind, uint64_t id) {
 }
 
 // construction paths; the promise is handed out through 'out'
-inline sfut sf_make(int path, cocls::promise<tracked> &out) {
+inline sfut sf_make(int path, cocls::promise<tracked> &out, int resolve_now_kind = -1, uint64_t id = 0) {
+    if (resolve_now_kind >= 0) { // resolved inside the construction function: the state is ready before it is ever shared
+        if (path == 0) return sfut([&](cocls::promise<tracked> p) { sf_resolve(p, resolve_now_kind, id); });
+        if (path == 1) return sfut([&]() -> cocls::future<tracked> { return cocls::future<tracked>([&](cocls::promise<tracked> p) { sf_resolve(p, resolve_now_kind, id); }); });
+        sfut f; auto p = f.get_promise(); sf_resolve(p, resolve_now_kind, id); return f;
+    }
     switch (path) {
     case 0: return sfut([&](cocls::promise<tracked> p) { out = std::move(p); });
     case 1: return sfut([&]() -> cocls::future<tracked> { return cocls::future<tracked>([&](cocls::promise<tracked> p) { out = std::move(p); }); });
@@ -70,8 +75,10 @@ inline void shared_future_history(const vf::opts &o, vf::report &R, uint64_t his
             cocls::promise<tracked> prom;
             std::vector<std::unique_ptr<sfut>> handles;
             std::deque<sf_obs> obs;
-            handles.push_back(std::make_unique<sfut>(sf_make(path, prom)));
-            bool resolved = false;
+            bool at_construction = r.chance(1, 6);
+            handles.push_back(std::make_unique<sfut>(sf_make(path, prom, at_construction ? kind : -1, id)));
+            bool resolved = at_construction;
+            if (at_construction) trace += "resolved-at-construction" + std::to_string(kind) + " ";
             int len = 1 + (int)r.below(14);
             int resolve_at = (int)r.below((uint32_t)len + 1);
             bool coro_mode = r.chance(1, 4);
